@@ -1,10 +1,10 @@
-(* C17: how the generator refers to a type in the text it generates (kernel K43: get_type_name_identifier and
+(* C17: how the generator refers to a type in the text it generates (kernel K44: get_type_name_identifier and
    is_local_type_name translated from the source, plus the regenerated table of every type_name / identifier call
    of the generator modules).  Code points as in K42; [name_chain] = NAME ('.' NAME)*, the shape c17_translate reads
    as ELoad / EAttr and Closed.check_closed / Binding.binding_ok resolve. *)
 From Coq Require Import List NArith Bool String.
-From VerifGen Require Import K42 K43.
-From Verif Require Import K42Proofs K43Proofs NsBind Render TypeRef.
+From VerifGen Require Import K42 K44.
+From Verif Require Import K42Proofs K44Proofs NsBind Render TypeRef TypeRefBind.
 Import ListNotations.
 Open Scope N_scope.
 
@@ -133,3 +133,21 @@ Example C17_class_reference_examples :
   fst (type_ident (codes (render false (RNamed "pkg.mod" "mk.<locals>.L")))) = codes "pkg_mod_mk__locals__L" /\
   name_chain (codes (render false (RNamed "pkg.mod" "mk.<locals>.L"))) = false.
 Proof. vm_compute. repeat split. Qed.
+
+(* ---- identity binding of local classes, end to end: the text the translated get_type_name_identifier pastes for a local
+        class o (and registers it under) is a name that denotes o in the namespace assembled by setdefault, when the
+        aliases are pairwise distinct and fresh; refuted without distinctness (m.f.<locals>.A_B / m.f.<locals>.A.B) *)
+Theorem C17_local_alias_binding_partial : forall (V : Type) (rend : V -> string) objs m0 o,
+  (forall o', In o' objs -> all7 (rend o') = true /\ is_local_type_name (codes (rend o')) = true) ->
+  NoDup (map (alias V rend) objs) ->
+  (forall o', In o' objs -> lookup V (alias V rend o') m0 = None) ->
+  In o objs ->
+  fst (type_ident (codes (rend o))) = codes (alias V rend o) /\
+  snd (type_ident (codes (rend o))) = Some (codes (alias V rend o)) /\
+  lookup V (alias V rend o) (ns_setdefault V (alias V rend) objs m0) = Some o.
+Proof. exact local_alias_binding. Qed.
+Print Assumptions C17_local_alias_binding_partial.
+
+Theorem C17_local_alias_binding_refuted : ~ local_alias_binding_full.
+Proof. exact local_alias_binding_refuted. Qed.
+Print Assumptions C17_local_alias_binding_refuted.
